@@ -167,37 +167,87 @@ func ruleTableShape(w *World, r *Report) {
 	// header value: the row-builder call with header-mode constant true
 	var headerCall, bodyCall *ssa.Call
 	nRowCalls := 0
-	for _, b := range tf.Blocks {
-		for _, ins := range b.Instrs {
-			c, ok := ins.(*ssa.Call)
-			if !ok || c.Common().StaticCallee() != rf {
-				continue
-			}
-			nRowCalls++
-			if bv, ok := constBool(c.Common().Args[m.headerIdx]); ok {
-				if bv {
-					headerCall = c
-				} else {
-					bodyCall = c
+	rowCallsIn := func(fn *ssa.Function) {
+		for _, b := range fn.Blocks {
+			for _, ins := range b.Instrs {
+				c, ok := ins.(*ssa.Call)
+				if !ok || c.Common().StaticCallee() != rf {
+					continue
+				}
+				nRowCalls++
+				if bv, ok := constBool(c.Common().Args[m.headerIdx]); ok {
+					if bv {
+						headerCall = c
+					} else {
+						bodyCall = c
+					}
 				}
 			}
 		}
 	}
-	if headerCall == nil || bodyCall == nil {
-		r.Unknown("table transformer: header/body row calls", w.FnPos(tf), "the row builder is not called once with header mode true and once with false")
+	rowCallsIn(tf)
+	// the construction of the table may be a helper of the transformer that receives the header row and the alignments
+	// (builder); guardSite is the instruction in the transformer that the header guard must dominate
+	builder := tf
+	var guardSite ssa.Instruction
+	var newTable *ssa.Call
+	findNewTable := func(fn *ssa.Function) *ssa.Call {
+		var out *ssa.Call
+		for _, b := range fn.Blocks {
+			for _, ins := range b.Instrs {
+				if c, ok := ins.(*ssa.Call); ok {
+					if nt := namedOf(c.Type()); nt != nil && nt.Obj() == tableT.Obj() && c.Common().StaticCallee() != nil && c.Common().StaticCallee().Pkg != fn.Pkg {
+						out = c
+					}
+				}
+			}
+		}
+		return out
+	}
+	newTable = findNewTable(tf)
+	var hv, av ssa.Value // the header row and the alignments as seen inside the builder
+	if headerCall != nil {
+		hv = headerCall
+		av = headerCall.Common().Args[paramIndex(rf, m.alignP)]
+	}
+	if newTable != nil {
+		guardSite = newTable
+	} else if headerCall != nil {
+		for _, b := range tf.Blocks {
+			for _, ins := range b.Instrs {
+				c, ok := ins.(*ssa.Call)
+				if !ok {
+					continue
+				}
+				cal := c.Common().StaticCallee()
+				if cal == nil || !w.InModule(cal) || cal == rf || cal.Blocks == nil || findNewTable(cal) == nil {
+					continue
+				}
+				var ph, pa ssa.Value
+				for ai, a := range c.Common().Args {
+					if ai >= len(cal.Params) {
+						continue
+					}
+					if stripIfaceConv(a) == ssa.Value(headerCall) {
+						ph = cal.Params[ai]
+					}
+					if a == av {
+						pa = cal.Params[ai]
+					}
+				}
+				if ph != nil && pa != nil {
+					builder, guardSite, newTable = cal, c, findNewTable(cal)
+					hv, av = ph, pa
+					rowCallsIn(cal)
+				}
+			}
+		}
+	}
+	if headerCall == nil || bodyCall == nil || newTable == nil {
+		r.Unknown("table transformer: header/body row calls", w.FnPos(tf), "the row builder is not called once with header mode true and once with false (in the transformer or in the helper that builds the table)")
 		return
 	}
 	alignV := headerCall.Common().Args[paramIndex(rf, m.alignP)]
-	var newTable *ssa.Call
-	for _, b := range tf.Blocks {
-		for _, ins := range b.Instrs {
-			if c, ok := ins.(*ssa.Call); ok {
-				if nt := namedOf(c.Type()); nt != nil && nt.Obj() == tableT.Obj() && c.Common().StaticCallee() != nil {
-					newTable = c
-				}
-			}
-		}
-	}
 	isHeaderCount := func(v ssa.Value) bool {
 		c, ok := stripConv(v).(*ssa.Call)
 		if !ok {
@@ -227,7 +277,7 @@ func ruleTableShape(w *World, r *Report) {
 		return ok && builtinName(c.Common()) == "len" && c.Common().Args[0] == alignV
 	}
 	nonNil, eq := false, false
-	for _, cf := range dominatingConds(newTable.Block()) {
+	for _, cf := range dominatingConds(guardSite.Block()) {
 		for _, a := range condAtoms(cf.If.Cond, cf.Truth) {
 			if x, isNil, ok := nilTest(a.V); ok && x == ssa.Value(headerCall) && isNil != a.Truth {
 				nonNil = true
@@ -251,7 +301,7 @@ func ruleTableShape(w *World, r *Report) {
 	// ---- C17-H -----------------------------------------------------------------
 	r.Rule("C17-H", "The transformer appends to the table exactly one header node (built from the header-mode row) and otherwise only rows returned by the row builder in body mode with the same alignments value.")
 	nHeader, nBody, nOther := 0, 0, 0
-	for _, b := range tf.Blocks {
+	for _, b := range builder.Blocks {
 		for _, ins := range b.Instrs {
 			child, ok := w.isAppendChildOn(ins, func(v ssa.Value) bool { return stripIfaceConv(v) == ssa.Value(newTable) })
 			if !ok {
@@ -260,7 +310,7 @@ func ruleTableShape(w *World, r *Report) {
 			ch := stripIfaceConv(child)
 			if c, ok := ch.(*ssa.Call); ok {
 				if c.Common().StaticCallee() == rf {
-					if bv, ok := constBool(c.Common().Args[m.headerIdx]); ok && !bv && c.Common().Args[paramIndex(rf, m.alignP)] == alignV {
+					if bv, ok := constBool(c.Common().Args[m.headerIdx]); ok && !bv && c.Common().Args[paramIndex(rf, m.alignP)] == av {
 						nBody++
 						continue
 					}
@@ -268,7 +318,7 @@ func ruleTableShape(w *World, r *Report) {
 				// NewTableHeader(header)
 				usesHeader := false
 				for _, a := range c.Common().Args {
-					if stripIfaceConv(a) == ssa.Value(headerCall) {
+					if stripIfaceConv(a) == hv {
 						usesHeader = true
 					}
 				}
